@@ -1,8 +1,8 @@
 """C28 (CLI slice) — `succinctly jq-locate` output evaluated by `succinctly jq`.
 
 Space (exhaustive within the bounds): every duplicate-free document of py/jgen.py's
-J(n) with the reduced alphabets (quick n=2, thorough n=3) under the 6 uniform
-whitespace patterns, plus the single-scalar / one-container documents over the
+J(n) with the reduced alphabets (quick n=2 under 3 uniform whitespace patterns,
+thorough n=3 under all 6), plus the single-scalar / one-container documents over the
 full leaf alphabet and a few documents with keys that need bracket notation or
 are non-ASCII; EVERY byte offset that the generator classifies as inside a
 scalar token, inside a key token or on a container's opening bracket.
@@ -92,7 +92,7 @@ def documents(tier):
     leaves = [N('scalar', s, v) for s, v in [jgen.SCAL[0], jgen.SCAL[3], jgen.SCAL[8], jgen.SCAL[11]] + [jgen.STR[0], jgen.STR[1], jgen.STR[3], jgen.STR[9], jgen.STR[10]]]
     keys = [jgen.KEYS[0], jgen.KEYS[1], jgen.KEYS[3], jgen.KEYS[4]]
     for t in jgen.trees(n, leaves, keys):
-        for ws in jgen.WS:
+        for ws in (jgen.WS if tier != "quick" else (jgen.WS[0], jgen.WS[3], jgen.WS[5])):
             r = emit(t, ws)
             if r: yield r
 
@@ -249,7 +249,7 @@ def run(ctx):
         for o in sorted(q):
             cases.append((i, o))
     jobs, res = check_cases(cases, rep, files)
-    confirmed = batch.selftest(jobs, res, n=24)
+    confirmed = batch.selftest(jobs, res, n=16 if tier == "quick" else 40)
     rep.traces_validated = confirmed
     rep.extra["batch_jobs"] = len(jobs)
     rep.extra["batch_jobs_confirmed_by_real_spawns"] = confirmed
